@@ -14,7 +14,7 @@ Quantified over: {p['quantifier']['text']}
 Code it is anchored in: {', '.join(p['anchors']['files'])}
 
 TASK: produce {n} DIFFERENT small changes to the library source (non-test .go files), each of which
- (a) still compiles (`go build ./...`) and still passes the ENTIRE existing test suite unchanged (`flock /tmp/hprose-fulltest.lock go test -vet=off -count=1 ./...` run from the worktree root — ALWAYS under that flock, because the tests bind fixed TCP/UDP ports and other people run the suite on this machine too; it takes a few minutes; while iterating run only the affected packages' tests, also under the flock; run the full suite for every final candidate; do not edit or add *_test.go files as part of the change),
+ (a) still compiles (`go build ./...`) and still passes the ENTIRE existing test suite unchanged (`flock /tmp/hprose-fulltest.lock go test -p 1 -vet=off -count=1 ./...` (with -p 1: the packages share fixed ports) run from the worktree root — ALWAYS under that flock, because the tests bind fixed TCP/UDP ports and other people run the suite on this machine too; it takes a few minutes; while iterating run only the affected packages' tests, also under the flock; run the full suite for every final candidate; do not edit or add *_test.go files as part of the change),
  (b) makes the property above FALSE, and
  (c) needs something specific to manifest — a particular interleaving, a fault at a particular point, a multi-step sequence of operations, an unusual input or boundary value, a particular configuration, or two cooperating edits that each look fine alone — i.e. NOT something ordinary use or a casual smoke test would expose at once. Prefer realistic mistakes a maintainer could make while refactoring or "optimising" (off-by-one at a boundary, a condition weakened, a state update moved across an early return, a missed case in one of several parallel code paths, a reset that forgets one field, a lock or atomic narrowed, a defer dropped on one path). The changes must be distinct from each other in mechanism and location. Avoid changes that only alter error message text or performance.
 
